@@ -60,8 +60,51 @@ func (m *c19Sim) release(i, nkeys int) {
 	}
 }
 
+// c19Exhaustive: every operation sequence of length <= 4 over a small alphabet on one key
+// (thorough tier; the alphabet varies with the seed so that the derived seeds cover different scopes).
+func c19Exhaustive(variant int) []verifh.Section {
+	var alpha, pre []string
+	n := 2
+	switch variant {
+	case 0: // default seconds = 0: lease 500 ms
+		alpha = []string{"acquire 0", "acquire 1", "release 0", "release 1", "ft 499", "ft 1", "ft 500", "race 0 1"}
+	case 1: // lease 1500 ms for instance 0, 500 ms for instance 1; refresh with changed seconds
+		pre = []string{"setexpire 0 1"}
+		alpha = []string{"acquire 0", "acquire 1", "release 0", "release 1", "ft 1499", "ft 1", "ft 500", "setexpire 0 0"}
+	default: // three competitors
+		n = 3
+		alpha = []string{"acquire 0", "acquire 1", "acquire 2", "release 0", "release 1", "release 2", "ft 500", "ft 499"}
+	}
+	var secs []verifh.Section
+	var rec func(prefix []string, depth int)
+	rec = func(prefix []string, depth int) {
+		if len(prefix) > 0 {
+			ops := append(append([]string{}, pre...), prefix...)
+			secs = append(secs, verifh.Section{Cfg: fmt.Sprintf("n=%d keys=1", n), Ops: ops})
+		}
+		if depth == 0 {
+			return
+		}
+		for _, a := range alpha {
+			rec(append(append([]string{}, prefix...), a), depth-1)
+		}
+	}
+	// only maximal sequences are needed (every shorter one is a prefix, and every line is checked)
+	rec(nil, 4)
+	var out []verifh.Section
+	for _, s := range secs {
+		if len(s.Ops)-len(pre) == 4 {
+			out = append(out, s)
+		}
+	}
+	return out
+}
+
 func c19Gen(r *verifh.Rng) []verifh.Section {
 	var secs []verifh.Section
+	if verifh.Thorough() {
+		secs = append(secs, c19Exhaustive(int(verifh.Seed()%3))...)
+	}
 	nsec := verifh.Scale(150, 800)
 	for s := 0; s < nsec; s++ {
 		nkeys := r.Pick(1, 1, 1, 2, 3)
